@@ -151,6 +151,10 @@ func (cli *Client) Start() error {
 
 // Stop stops the client event-loop.
 func (cli *Client) Stop() error {
+	if cli.eng.isShutdown() { // already stopped, the pollers have been closed
+		return errorx.ErrEngineInShutdown
+	}
+
 	cli.eng.shutdown(nil)
 
 	cli.eng.eventHandler.OnShutdown(Engine{cli.eng})
